@@ -18,7 +18,21 @@ import (
 
 // durableLog reports (prevIndex of first segment, last index visible after a
 // reopen) by reading the segment headers the way log.openSegments chains them.
+// durableLog: what a reopen of the directory would see. The node may be
+// compacting (removing segments from the front) while the directory is being
+// scanned: when a listed file has vanished the scan is repeated.
 func durableLog(storageDir string) (first, last uint64, ok bool) {
+	for try := 0; try < 20; try++ {
+		var vanished bool
+		first, last, ok, vanished = durableLogOnce(storageDir)
+		if !vanished {
+			break
+		}
+	}
+	return
+}
+
+func durableLogOnce(storageDir string) (first, last uint64, ok, vanished bool) {
 	dir := filepath.Join(storageDir, "log")
 	m, _ := filepath.Glob(filepath.Join(dir, "*.log"))
 	var offs []uint64
@@ -29,12 +43,15 @@ func durableLog(storageDir string) (first, last uint64, ok bool) {
 		}
 	}
 	if len(offs) == 0 {
-		return 0, 0, false
+		return 0, 0, false, false
 	}
 	sort.Slice(offs, func(i, j int) bool { return offs[i] < offs[j] })
 	count := func(off uint64) (uint64, bool) {
 		f, err := os.Open(filepath.Join(dir, fmt.Sprintf("%d.log", off)))
 		if err != nil {
+			if os.IsNotExist(err) {
+				vanished = true
+			}
 			return 0, false
 		}
 		defer f.Close()
@@ -51,19 +68,19 @@ func durableLog(storageDir string) (first, last uint64, ok bool) {
 	first = offs[0]
 	n, k := count(offs[0])
 	if !k {
-		return 0, 0, false
+		return 0, 0, false, vanished
 	}
 	lastPrev, lastN := offs[0], n
 	for _, off := range offs[1:] {
 		if lastN > 0 && off == lastPrev+lastN {
 			n, k := count(off)
 			if !k {
-				return first, lastPrev + lastN, true
+				return first, lastPrev + lastN, true, vanished
 			}
 			lastPrev, lastN = off, n
 		}
 	}
-	return first, lastPrev + lastN, true
+	return first, lastPrev + lastN, true, vanished
 }
 
 func latestSnapOnDisk(storageDir string) uint64 {
@@ -312,6 +329,17 @@ func (c *cluster) onTimeoutNowWritten(src *simNode, w *wireMsg) {
 // that would be visible after a reopen of storageDir (flushed header counts
 // only). ok=false if the index is not durable there.
 func diskEntryTerm(storageDir string, index uint64) (term uint64, ok bool) {
+	for try := 0; try < 20; try++ {
+		var vanished bool
+		term, ok, vanished = diskEntryTermOnce(storageDir, index)
+		if !vanished {
+			break
+		}
+	}
+	return
+}
+
+func diskEntryTermOnce(storageDir string, index uint64) (term uint64, ok, vanished bool) {
 	dir := filepath.Join(storageDir, "log")
 	m, _ := filepath.Glob(filepath.Join(dir, "*.log"))
 	var offs []uint64
@@ -322,11 +350,14 @@ func diskEntryTerm(storageDir string, index uint64) (term uint64, ok bool) {
 		}
 	}
 	if len(offs) == 0 {
-		return 0, false
+		return 0, false, false
 	}
 	sort.Slice(offs, func(i, j int) bool { return offs[i] < offs[j] })
 	readSeg := func(off uint64) []byte {
 		b, err := ioutil.ReadFile(filepath.Join(dir, fmt.Sprintf("%d.log", off)))
+		if err != nil && os.IsNotExist(err) {
+			vanished = true
+		}
 		if err != nil || len(b) < 16 {
 			return nil
 		}
@@ -343,7 +374,7 @@ func diskEntryTerm(storageDir string, index uint64) (term uint64, ok bool) {
 	prev := offs[0]
 	b := readSeg(prev)
 	if b == nil {
-		return 0, false
+		return 0, false, vanished
 	}
 	n := at(b, 0)
 	look := func(b []byte, prev, n uint64) (uint64, bool) {
@@ -358,21 +389,21 @@ func diskEntryTerm(storageDir string, index uint64) (term uint64, ok bool) {
 		return binary.LittleEndian.Uint64(b[from+8 : from+16]), true
 	}
 	if t, ok := look(b, prev, n); ok {
-		return t, true
+		return t, true, false
 	}
 	for _, off := range offs[1:] {
 		if n > 0 && off == prev+n {
 			nb := readSeg(off)
 			if nb == nil {
-				return 0, false
+				return 0, false, vanished
 			}
 			prev, b, n = off, nb, at(nb, 0)
 			if t, ok := look(b, prev, n); ok {
-				return t, true
+				return t, true, false
 			}
 		}
 	}
-	return 0, false
+	return 0, false, vanished
 }
 
 // actsAsLeader: whoever replicates in term T must have entered Leader state in T.
